@@ -45,7 +45,7 @@ claim(
     "CFG with exceptional edges (must-pass-through), exception-class subsumption, who-may-call (AST)",
     "Decides that `unknown` always becomes an exception, that check() is called only where that mapping happens, "
     "that push() is matched by pop() on every normal and exceptional path, that only sanctioned code mutates the "
-    "native solver, and that no non-re-raising handler can swallow a solver give-up or cache it as unsat.",
+    "native solver, and that no non-re-raising handler can swallow a solver give-up or cache it as unsat. Also: every method of BackendZ3 that asks the native solver runs inside the Z3 guard.",
     "Not decided: the state of Z3 itself after an interrupt. " + GENERIC_NOTE,
 )
 claim(
@@ -102,7 +102,7 @@ claim(
     "become replacements only under the opt-in flag (default off), that auto-replacements have the right polarity "
     "and direction and VSA bounds are intersected, that constraints always reach the inner frontend - as written "
     "whenever a replacement stripped them of a variable - and that the "
-    "hybrid frontend uses the approximate side only when exact is False or in the opt-in approximate-first mode.",
+    "hybrid frontend uses the approximate side only when exact is False or in the opt-in approximate-first mode. Also: every part HybridFrontend.split hands out gets sub-frontends of its own; substitution survives a divisor that became zero.",
     "Not decided: that VSA answers over-approximate (C21-C25) and that constraint_to_si's bounds are implied by the "
     "constraint. " + GENERIC_NOTE,
 )
@@ -113,7 +113,7 @@ claim(
     "*constraints) into a blank copy (ancestor.branch() + Or(conditions) with an ancestor), that combine adds every "
     "constraint set to a blank copy and carries models only across disjoint variable sets, that split builds one "
     "blank copy per independent group, returns all of them and restricts inherited models, and that the composite's "
-    "split and merge honour a concrete False kept in its flag.",
+    "split and merge honour a concrete False kept in its flag. Also: combine reads every operand's concrete-False flag; a merged remainder without variables is not filed as a child; common children of a merge are filed through _store_child; a child replaced by its parts leaves every name; a split-off part keeps the models it recorded itself.",
     "Not decided: the groups computed by _split_constraints (graph computation on runtime data) and composite merge "
     "bookkeeping beyond pairing order. " + GENERIC_NOTE,
 )
@@ -152,7 +152,7 @@ claim(
     "and a Z3 handler of the declared arity with value-based equality, that each handler computes the reference "
     "operation with operands in the positions the Python/Z3 function expects, and that strings are encoded/decoded "
     "at the Z3 text boundary by an encoder that neutralises every escape form Z3 reads, and that a search in an "
-    "operand-positioned slice is guarded against a start beyond the end.",
+    "operand-positioned slice is guarded against a start beyond the end. Also: a Python str compared with a Z3 term goes through the backend's encoder first; StrToInt/IntToStr convert in bounded pieces.",
     "Not decided: other index-arithmetic corner cases (Substr clipping at 2**64) beyond the reference shapes. " + GENERIC_NOTE,
 )
 claim(
@@ -164,7 +164,7 @@ claim(
     "errors and asserts nothing about operand values, that operand-derived left shifts are bounded by the width "
     "(concrete code) or by a dominating comparison (integer shifts in simplifiers by amounts taken out of an AST), "
     "that float-to-integer conversions handle NaN and infinity, and (shared) that no caller string reaches a regex "
-    "pattern.",
+    "pattern. Also: the concrete backend refuses the empty interval's missing value, the variadic Boolean simplifiers answer the empty operand list, slices at a shift amount are bounded by the width, float() of a rounded result happens strictly below the overflow threshold.",
     "Not decided: time and memory in general; implicit exceptions of builtins are not modelled. " + GENERIC_NOTE,
 )
 claim(
@@ -207,7 +207,7 @@ claim(
     "conditions and branches correctly and drop a case only when its value equals the accumulated else-branch, that "
     "a unique-element selection is dominated by a uniqueness guard, that replace/replace_dict type-check, rebuild "
     "with the parent's own op and memoise under the parent's hash, and that canonicalize never renames a variable "
-    "the caller's map already knows.",
+    "the caller's map already knows. Also: ite_dict takes its median in the order the emitted comparison uses; ite_cases' skip test is stricter than IEEE equality; replace_dict's memo maps a visited node to its image and compares widths.",
     "Not decided: value-level equivalence of the outputs of excavate/burrow/chop/get_bytes. " + GENERIC_NOTE,
 )
 claim(
@@ -295,7 +295,7 @@ claim(
     "Decides that the VSA column of the dispatch table sends every op to the transfer function of its meaning with "
     "operands in order and leaves ops without VSA meaning unsupported, that If joins unless one branch is "
     "impossible, that annotations become intervals with their own bounds at the object's width, that min/max fold "
-    "the right bounds by signedness, and that the light frontend only answers unsat on a definitely false constraint.",
+    "the right bounds by signedness, and that the light frontend only answers unsat on a definitely false constraint. Also: == / != of two abstract Booleans is three-valued.",
     "Not decided: numerics inherited from C21. " + GENERIC_NOTE,
 )
 claim(
@@ -308,7 +308,7 @@ claim(
     "balancer's own unsat error, and that every balance rewrite f(x) OP c -> x OP g(c) is returned only under an "
     "operator restriction for which it is an implication or under a VSA range fact about the bits it discards - "
     "which carries unsigned comparisons and (in)equalities over, a signed one only as its unsigned counterpart "
-    "where both sides agree on their high bits - and that no rebuilt bound is shifted arithmetically.",
+    "where both sides agree on their high bits - and that no rebuilt bound is shifted arithmetically. Also: the Extract arm pads the constant to the operand's full width or does not fire; the shift arm needs facts about both the shifted-out bits and the constant's low bits.",
     "Not decided: the numeric content of the range facts and of g; the add/sub arms are known findings (no wrap "
     "condition). "
     + GENERIC_NOTE,
